@@ -121,7 +121,7 @@ pub fn m_c15(len: usize, f: usize, index: usize, sub: usize, wave_len: usize) ->
             let mut poisoned = wave.clone();
             for (i, v) in poisoned.iter_mut().enumerate() {
                 if i < index || i >= index + len {
-                    *v = 1.0e30;
+                    *v = <$t>::NAN; // NaN survives a multiplication by a zero weight
                 }
             }
             let sum_abs: f64 = (0..len).map(|p| (wave[index + p] as f64).abs()).sum();
@@ -138,7 +138,7 @@ pub fn m_c15(len: usize, f: usize, index: usize, sub: usize, wave_len: usize) ->
                 let diff = (v as f64 - base as f64).abs();
                 let dp = (vp as f64 - v as f64).abs();
                 println!("{} {}: value {:e} scalar {:e} diff {:e} poisoned-diff {:e}", stringify!($t), name, v, base, diff, dp);
-                if !(diff <= $tol * (sum_abs + 1.0)) || !(dp <= $tol * (sum_abs + 1.0)) {
+                if !(diff <= $tol * (sum_abs + 1.0)) || !(dp <= $tol * (sum_abs + 1.0)) || vp.is_nan() {
                     bad = true;
                 }
             }
@@ -181,4 +181,29 @@ pub fn m_c14(kind: &str, ratio: f64) -> bool {
     let tol = ratio.max(1.0) + 1.0;
     println!("{} ratio {}: event centred at output frame {:.3}, n*ratio + output_delay() = {:.3} (delay {}), tolerance {:.1}", kind, ratio, c, expected, delay, tol);
     (c - expected).abs() > tol
+}
+
+/// Engine-M counterexample for the setter predicate (C12): does the real setter disagree
+/// with original/max <= r <= original*max for these concrete values?
+pub fn m_c12(kind: &str, orig: f64, max: f64, r: f64) -> bool {
+    use rubato::{FastFixedIn, SincFixedIn};
+    let want = orig / max <= r && r <= orig * max;
+    let got = match kind {
+        "FastFixedIn" => FastFixedIn::<f64>::new(orig, max, PolynomialDegree::Linear, 4, 1).map(|mut x| x.set_resample_ratio(r, false).is_ok()),
+        "FastFixedOut" => FastFixedOut::<f64>::new(orig, max, PolynomialDegree::Linear, 4, 1).map(|mut x| x.set_resample_ratio(r, false).is_ok()),
+        "SincFixedIn" => SincFixedIn::<f64>::new_with_interpolator(orig, max, SincInterpolationType::Linear, Box::new(PolyKernel { len: 8, n: 2, d: 1 }), 4, 1)
+            .map(|mut x| x.set_resample_ratio(r, false).is_ok()),
+        _ => SincFixedOut::<f64>::new_with_interpolator(orig, max, SincInterpolationType::Linear, Box::new(PolyKernel { len: 8, n: 2, d: 1 }), 4, 1)
+            .map(|mut x| x.set_resample_ratio(r, false).is_ok()),
+    };
+    match got {
+        Ok(g) => {
+            println!("{} orig {:e} max {:e} r {:e}: accepted {} documented {}", kind, orig, max, r, g, want);
+            g != want
+        }
+        Err(_) => {
+            println!("constructor rejected the arguments");
+            false
+        }
+    }
 }
